@@ -45,6 +45,13 @@ func swarmSched(plan *Tape, cfg *RunCfg) {
 	cfg.WTime = []int{0, 0, 1, 3}[plan.Draw(4)]
 	cfg.MapMode = plan.Draw(3)
 	cfg.MapSalt = uint64(plan.Draw(1 << 30))
+	// some runs make one class of jobs slow: preflights, or the jobs of one stage
+	switch plan.Draw(4) {
+	case 1:
+		cfg.SlowLabel, cfg.SlowDiv = "PFST", 64
+	case 2:
+		cfg.SlowLabel, cfg.SlowDiv = fmt.Sprintf("ST%d", 1+plan.Draw(6)), 64
+	}
 }
 
 func progShape(p *Prog) string {
@@ -97,6 +104,9 @@ func baseFlags(plan *Tape) []string {
 // an adversarial schedule; the history is checked against the reference evaluator.
 func dataflowCase(c *Ctx, focus string) {
 	gcfg := swarmGen(c.Plan, c.thorough())
+	if focus == "C02" && c.Plan.Draw(2) == 0 {
+		gcfg.Preflight = true
+	}
 	prog := Generate(c.Plan, gcfg)
 	cfg := &RunCfg{Prog: prog, FCfg: &FCfg{MaxLen: 1 + c.Plan.Draw(3), MaxChunks: c.Plan.Draw(4), Salt: "df", AllowNil: c.Plan.Draw(4) == 0},
 		MaxSteps: 60000}
@@ -135,6 +145,11 @@ func dataflowCase(c *Ctx, focus string) {
 		c.Res.Probes["struct-narrowing"] += ev.NNarrow
 		c.Res.Probes["projections"] += ev.NProj
 		c.Res.Probes["shared-invariant-instance"] += ev.NShared
+		for _, in := range ev.Insts {
+			if in.Preflight {
+				c.Res.Probes["preflight-instances"]++
+			}
+		}
 		c.Res.Nontrivial = len(r.Jobs) >= 3
 	case "rejected-at-start":
 		c.Res.Notes = append(c.Res.Notes, "mrp rejected the program: "+lastLines(r.outBuf.String(), 6))
